@@ -191,19 +191,51 @@ func (p *Path) check1(extra *term.T, want []*term.T) (smt.Result, []*big.Int) {
 	if r != smt.Unknown {
 		return r, v
 	}
-	if a := p.W.alt(); a != nil {
-		r, v = a.CheckFresh(p.F, p.pc, extra, want)
-		if r != smt.Unknown {
+	// race the integer-encoding back end against the primary with the long limit
+	p.S.SetTimeout(p.H.SolverMs)
+	a := p.W.alt()
+	if a == nil {
+		r, v = p.S.Check(p.F, extra, want)
+		if p.S.Dead() {
+			p.resync()
+		}
+		return r, v
+	}
+	type ans struct {
+		r smt.Result
+		v []*big.Int
+	}
+	altRun := a.PrepareFresh(p.F, p.pc, extra, want)
+	priRun := p.S.Prepare(p.F, extra, want)
+	altCh, priCh := make(chan ans, 1), make(chan ans, 1)
+	go func() { r, v := altRun(); altCh <- ans{r, v} }()
+	go func() { r, v := priRun(); priCh <- ans{r, v} }()
+	var out ans
+	select {
+	case out = <-priCh:
+		if out.r != smt.Unknown {
+			a.Interrupt()
+			<-altCh
+		} else if o2 := <-altCh; o2.r != smt.Unknown {
+			out = o2
 			p.W.altWins++
-			return r, v
+		}
+	case out = <-altCh:
+		if out.r != smt.Unknown {
+			p.W.altWins++
+			p.S.Interrupt()
+			<-priCh
+		} else {
+			out = <-priCh
 		}
 	}
-	p.S.SetTimeout(p.H.SolverMs)
-	r, v = p.S.Check(p.F, extra, want)
+	if a.Dead() {
+		a.Reset()
+	}
 	if p.S.Dead() {
 		p.resync()
 	}
-	return r, v
+	return out.r, out.v
 }
 
 // fork decides a boolean condition, exploring both sides where feasible.
